@@ -167,7 +167,7 @@ func normWS(s string) string {
 func genBech32() {
 	p := repoPkg("pkg/bech32")
 	b := repoPkg("pkg/bech32/internal/base32")
-	g := newGen("Bech32")
+	g := newGenHdr("Bech32", loopHeaderText)
 	g.def("maxStringLength", "Int", p.intConst("maxStringLength"))
 	g.def("checksumLength", "Int", p.intConst("checksumLength"))
 	g.def("separator", "Int", p.intConst("separator"))
@@ -177,9 +177,15 @@ func genBech32() {
 	g.raw(translateFunc(p, "isValidHRPChar"))
 	g.raw(translateFunc(b, "EncodedLen"))
 	g.raw(translateFunc(b, "DecodedLen"))
+	// checksum.go translated as code, loops included (tied to the model in Iota/Tie/Bech32Code.lean)
+	g.raw(translateLoopFuncs(p, "bech32Polymod", "bech32HrpExpand", "bech32CreateChecksum", "bech32VerifyChecksum"))
+	// functions translated as code (with loops) are tied by the theorems about the translation, not by their text: a
+	// rewrite that leaves the meaning unchanged (renamed locals, reformatting) then raises no alarm
+	for _, n := range []string{"bech32CreateChecksum", "bech32Polymod", "bech32HrpExpand", "bech32VerifyChecksum"} {
+		pinnedFns[p.method(n)] = true
+	}
 	g.src(p, "Encode", "Decode", "isValidHRPChar", "validateCase", "firstUpper", "firstLower",
-		"newEncoding", "encoding.encode", "encoding.decode",
-		"bech32CreateChecksum", "bech32Polymod", "bech32HrpExpand", "bech32VerifyChecksum")
+		"newEncoding", "encoding.encode", "encoding.decode")
 	g.src(b, "Encode", "Decode", "EncodedLen", "DecodedLen")
 	g.rest(b, "base32")
 	g.rest(p, "bech32")
